@@ -7,6 +7,7 @@ config isq <t|s> <str>                      → True | False                    
 config unq <t|s> <str>                      → ok <str> | ValueError | unmodelled  (unquote_str)
 config quote <1d|1s|3d|3s> <str>            → <quoted> <isq> <unq…>               (quote1/quote3, then both)
 config inival <basic|none> <0|1> <str>      → skip | str <str> | list <str>* | error:<e> | unmodelled
+        (none = the code today, `iniValue`; basic = `iniValueOld basicInterp`, before commit d27392d)
 config iniline <str>                        → <str>                               (str.strip)
 config space <lo> <hi>                      → code points in [lo,hi) with str.isspace()
 config evallist <str>                       → ok <str>* | error | unmodelled
@@ -15,6 +16,7 @@ config tomlitem <tv>                        → str <str> | list <str>* | unmode
         tv = s:<str> | i:<int> | b:<0|1> | o | L <scalar>*
 config tomlpick <n> <sec>* <m> (<sec> <k>)* → index of the picked section | -
 config iniitems <basic|none> <n> <sec>* <m> (<sec> <k> (<key> <raw>)*)* → items | refused | unmodelled
+config table <n> <opt>*                     → flags:<0|1> keys:<0|1> nosep:<0|1> | <keys of opt 1> | …
 config validate <n> <opt>* <m> <key>*       → keep <key>* | warn <key>*
         opt = <store|append|flag|count> <nflags> <flag>*
 config merge <n> <opt>* F <f> (<k> (<key> <val>)*)* C <c> <raw>*
@@ -191,7 +193,7 @@ def handle (args : List String) : String :=
     | none => "bad-op"
   | ["inival", i, ml, s] =>
     match parseInterp i, parseBool01 ml, decodeStr s with
-    | some interp, some b, some raw => showIniVal (iniValue interp b raw)
+    | some interp, some b, some raw => showIniVal (iniValueOld interp b raw)   -- `none` = iniValue (the code today)
     | _, _, _ => "bad-op"
   | ["iniline", s] =>
     match decodeStr s with
@@ -251,11 +253,22 @@ def handle (args : List String) : String :=
         if rest''.isEmpty then some (interp, sections, file) else none
       | [] => none) with
     | some (interp, sections, file) =>
-      match iniItems interp true sections file with
+      match iniItemsOld interp true sections file with
       | none => "unmodelled"
       | some none => "refused"
       | some (some d) =>
         if d.isEmpty then "-" else " ".intercalate (d.map fun kv => encodeStr kv.1 ++ " " ++ showFileVal kv.2)
+    | none => "bad-op"
+  | "table" :: n :: toks =>
+    -- the hypotheses of the merge theorems on a concrete table, and the config keys of every option
+    match (do
+      let no ← n.toNat?
+      let (table, rest) ← takeOpts no toks
+      if rest.isEmpty then some table else none) with
+    | some table =>
+      let b := fun (x : Bool) => if x then "1" else "0"
+      "flags:" ++ b (flagsDisjointB table) ++ " keys:" ++ b (keysDisjointB table) ++ " nosep:" ++ b (noSepFlagB table) ++
+        " | " ++ " | ".intercalate (table.map fun o => showStrs (possibleKeys o))
     | none => "bad-op"
   | "validate" :: n :: toks =>
     match (do
